@@ -3448,3 +3448,179 @@ sf_get_chunk_data (const SF_CHUNK_ITERATOR * iterator, SF_CHUNK_INFO * chunk_inf
 
 	return SFE_BAD_CHUNK_FORMAT ;
 } /* sf_get_chunk_data */
+
+#ifdef LIBSNDFILE_VERIF
+#include <stddef.h>
+/*------------------------------------------------------------------------------
+** Read-only observation hooks for the external verification harness (/verif).
+** Nothing here is compiled unless LIBSNDFILE_VERIF is defined, and nothing
+** here modifies library state.
+*/
+
+typedef struct
+{	int64_t		read_current, write_current, frames ;
+	int64_t		dataoffset, datalength, dataend, filelength, fileoffset ;
+	int64_t		header_indx, header_end, header_len ;
+	int64_t		strings_used, strings_len ;
+	int32_t		channels, samplerate, format, sections, seekable ;
+	int32_t		last_op, have_written, mode, error, is_pipe ;
+	int32_t		norm_float, norm_double, add_clipping, float_int_mult, scale_int_float ;
+	int32_t		auto_header, magick_ok, virtual_io ;
+	uint32_t	rchunks_used, rchunks_count, wchunks_used, wchunks_count ;
+	uint32_t	string_slots, pad0 ;
+	uint64_t	meta_digest ;
+} SF_VERIF_STATE ;
+
+static uint64_t
+verif_fnv (uint64_t h, const void *p, size_t n)
+{	const unsigned char *c = (const unsigned char *) p ;
+	while (n--)
+	{	h ^= *c++ ;
+		h *= 1099511628211ULL ;
+		} ;
+	return h ;
+} /* verif_fnv */
+
+int sf_verif_get_state (SNDFILE *sndfile, void *out, int size) ;
+int sf_verif_check_invariants (SNDFILE *sndfile, char *why, int whylen) ;
+void sf_verif_get_globals (int *errno_out, uint64_t *parselog_digest, uint64_t *syserr_digest) ;
+
+int
+sf_verif_get_state (SNDFILE *sndfile, void *out, int size)
+{	const SF_PRIVATE *psf = (const SF_PRIVATE *) sndfile ;
+	SF_VERIF_STATE st ;
+	uint64_t h = 1469598103934665603ULL ;
+	int k ;
+
+	if (psf == NULL || out == NULL || size != (int) sizeof (st))
+		return -1 ;
+
+	memset (&st, 0, sizeof (st)) ;
+	st.read_current = psf->read_current ;
+	st.write_current = psf->write_current ;
+	st.frames = psf->sf.frames ;
+	st.dataoffset = psf->dataoffset ;
+	st.datalength = psf->datalength ;
+	st.dataend = psf->dataend ;
+	st.filelength = psf->filelength ;
+	st.fileoffset = psf->fileoffset ;
+	st.header_indx = psf->header.indx ;
+	st.header_end = psf->header.end ;
+	st.header_len = psf->header.len ;
+	st.strings_used = psf->strings.storage_used ;
+	st.strings_len = psf->strings.storage_len ;
+	st.channels = psf->sf.channels ;
+	st.samplerate = psf->sf.samplerate ;
+	st.format = psf->sf.format ;
+	st.sections = psf->sf.sections ;
+	st.seekable = psf->sf.seekable ;
+	st.last_op = psf->last_op ;
+	st.have_written = psf->have_written ;
+	st.mode = psf->file.mode ;
+	st.error = psf->error ;
+	st.is_pipe = psf->is_pipe ;
+	st.norm_float = psf->norm_float ;
+	st.norm_double = psf->norm_double ;
+	st.add_clipping = psf->add_clipping ;
+	st.float_int_mult = psf->float_int_mult ;
+	st.scale_int_float = psf->scale_int_float ;
+	st.auto_header = psf->auto_header ;
+	st.magick_ok = (psf->Magick == SNDFILE_MAGICK) ;
+	st.virtual_io = psf->virtual_io ;
+	st.rchunks_used = psf->rchunks.used ;
+	st.rchunks_count = psf->rchunks.count ;
+	st.wchunks_used = psf->wchunks.used ;
+	st.wchunks_count = psf->wchunks.count ;
+
+	for (k = 0 ; k < SF_MAX_STRINGS ; k++)
+		if (psf->strings.data [k].type != 0)
+		{	st.string_slots ++ ;
+			h = verif_fnv (h, &psf->strings.data [k].type, sizeof (int)) ;
+			h = verif_fnv (h, &psf->strings.data [k].flags, sizeof (int)) ;
+			if (psf->strings.storage != NULL && psf->strings.data [k].offset < psf->strings.storage_used)
+				h = verif_fnv (h, psf->strings.storage + psf->strings.data [k].offset,
+						strlen (psf->strings.storage + psf->strings.data [k].offset)) ;
+			} ;
+
+	if (psf->broadcast_16k != NULL)
+		h = verif_fnv (h, psf->broadcast_16k, sizeof (*psf->broadcast_16k)) ;
+	if (psf->cart_16k != NULL)
+		h = verif_fnv (h, psf->cart_16k, sizeof (*psf->cart_16k)) ;
+	if (psf->cues != NULL)
+		h = verif_fnv (h, psf->cues, offsetof (SF_CUES, cue_points) + psf->cues->cue_count * sizeof (SF_CUE_POINT)) ;
+	if (psf->instrument != NULL)
+		h = verif_fnv (h, psf->instrument, sizeof (*psf->instrument)) ;
+	if (psf->loop_info != NULL)
+		h = verif_fnv (h, psf->loop_info, sizeof (*psf->loop_info)) ;
+	if (psf->channel_map != NULL && psf->sf.channels > 0)
+		h = verif_fnv (h, psf->channel_map, psf->sf.channels * sizeof (int)) ;
+	if (psf->peak_info != NULL && psf->sf.channels > 0)
+		for (k = 0 ; k < psf->sf.channels ; k++)
+		{	h = verif_fnv (h, &psf->peak_info->peaks [k].value, sizeof (double)) ;
+			h = verif_fnv (h, &psf->peak_info->peaks [k].position, sizeof (sf_count_t)) ;
+			} ;
+	for (k = 0 ; k < (int) psf->wchunks.used && psf->wchunks.chunks != NULL ; k++)
+	{	h = verif_fnv (h, &psf->wchunks.chunks [k].hash, sizeof (uint64_t)) ;
+		h = verif_fnv (h, &psf->wchunks.chunks [k].len, sizeof (uint32_t)) ;
+		} ;
+	st.meta_digest = h ;
+
+	memcpy (out, &st, sizeof (st)) ;
+	return 0 ;
+} /* sf_verif_get_state */
+
+int
+sf_verif_check_invariants (SNDFILE *sndfile, char *why, int whylen)
+{	const SF_PRIVATE *psf = (const SF_PRIVATE *) sndfile ;
+	const char *msg = NULL ;
+	int k, slots = 0 ;
+
+	if (psf == NULL)
+		return 0 ;
+
+	for (k = 0 ; k < SF_MAX_STRINGS ; k++)
+		slots += (psf->strings.data [k].type != 0) ;
+
+	if (psf->Magick != SNDFILE_MAGICK)
+		msg = "Magick canary damaged" ;
+	else if (psf->header.indx < 0 || psf->header.indx > psf->header.len)
+		msg = "header.indx outside [0, header.len]" ;
+	else if (psf->header.end < 0 || psf->header.end > psf->header.len)
+		msg = "header.end outside [0, header.len]" ;
+	else if (psf->header.len > 0 && psf->header.ptr == NULL)
+		msg = "header.len > 0 with NULL header.ptr" ;
+	else if (psf->parselog.indx < 0 || psf->parselog.indx >= (int) sizeof (psf->parselog.buf))
+		msg = "parselog.indx outside buffer" ;
+	else if (psf->rchunks.used > psf->rchunks.count)
+		msg = "rchunks.used > rchunks.count" ;
+	else if (psf->wchunks.used > psf->wchunks.count)
+		msg = "wchunks.used > wchunks.count" ;
+	else if (psf->rchunks.used > 0 && psf->rchunks.chunks == NULL)
+		msg = "rchunks.used > 0 with NULL array" ;
+	else if (psf->wchunks.used > 0 && psf->wchunks.chunks == NULL)
+		msg = "wchunks.used > 0 with NULL array" ;
+	else if (psf->strings.storage_used > psf->strings.storage_len)
+		msg = "strings.storage_used > storage_len" ;
+	else if (slots > SF_MAX_STRINGS)
+		msg = "too many string slots" ;
+	else if (psf->sf.channels < 0)
+		msg = "negative channel count" ;
+
+	if (msg == NULL)
+		return 0 ;
+	if (why != NULL && whylen > 0)
+		snprintf (why, whylen, "%s", msg) ;
+	return 1 ;
+} /* sf_verif_check_invariants */
+
+void
+sf_verif_get_globals (int *errno_out, uint64_t *parselog_digest, uint64_t *syserr_digest)
+{	if (errno_out != NULL)
+		*errno_out = sf_errno ;
+	if (parselog_digest != NULL)
+		*parselog_digest = verif_fnv (1469598103934665603ULL, sf_parselog, strlen (sf_parselog)) ;
+	if (syserr_digest != NULL)
+		*syserr_digest = verif_fnv (1469598103934665603ULL, sf_syserr, strlen (sf_syserr)) ;
+} /* sf_verif_get_globals */
+
+#endif /* LIBSNDFILE_VERIF */
